@@ -1,16 +1,22 @@
 (* C01 -- committed data reads back exactly as a reference ordered map would.
-   What is PROVED here (for all trees / pages / keys, no bound): the read half --
-     on every well-formed tree, point lookups, full scans, seeks and range scans return what the sorted
-     association list of its entries (= the reference map's view) returns; and the page decoder inverts
-     the page encoder.
-   What is NOT proved (C01_partial, see DESIGN.md 6/C01 and 10): that put / delete / rebalance / spill
-     produce a well-formed tree with the reference's contents. That half is validated per commit: the
-     extracted decoder + inv_check + "contents = reference" run on every file the library commits, and
-     every call's result is compared with the extracted reference. *)
+   PROVED (for all trees / pages / keys / operation lists / spill orders, no bound):
+     read half  -- on every well-formed tree, point lookups, full scans, seeks and range scans return what the sorted association
+                   list of its entries (= the reference map's view) returns; the page decoder inverts the page encoder;
+     write half -- for the ENGINE MODEL (coq/model/Engine.v, the write path of the library transliterated: overlay nodes, put / delete /
+                   nested buckets, rebalance, spill, free list, commit): C01_engine_history_refines_reference and
+                   C01_engine_transaction_refines_and_keeps_invariant at the end of this file -- every history of transactions from the
+                   empty database commits the reference's contents and re-establishes the complete invariant. Side conditions: the
+                   model's fuels only (paths shorter than 8 buckets, trees of height <= 64, nesting <= 16, deleted trees < 100000 pages).
+                   The theorems named C01_partial_* are the layers the proof is assembled from (each a statement of its own).
+   NOT PROVED, CHECKED ON EVERY RUN: that Engine.v is what the Rust code does. That tie is the correspondence: the extracted engine
+     must reproduce every file the library commits page for page (10 k commits per quick run), its thresholds and sizes are pinned to
+     the constants the translator reads from the source (C01_engine_constants_from_source), every library call is compared with the
+     extracted reference machine (= sem_tx, C01_reference_machine_is_sem_tx), and every committed file is decoded by the Gallina
+     decoder (inv_check + contents = reference). *)
 From Coq Require Import List NArith.
 From Coq Require Import Permutation.
 From Jamm Require Import Bytes Codec Tree Spec Cursor SearchFacts CursorFacts SeekFacts CodecFacts.
-From Jamm Require Engine EngineAbs SpecPath EngineFacts EngineMergeFacts EngineModifyFacts EnginePathFacts EngineSpillFacts SpecPathFacts EngineRebalanceFacts EngineBridgeFacts EnginePins EngineTxInvFacts EngineSpillBucketFacts EngineRefines.
+From Jamm Require Engine EngineAbs SpecPath EngineFacts EngineMergeFacts EngineModifyFacts EnginePathFacts EngineSpillFacts SpecPathFacts EngineRebalanceFacts EngineBridgeFacts EnginePins EngineTxInvFacts EngineSpillBucketFacts EngineRefines EngineOwnDefs EngineOwnSpill EngineAllocInv.
 From Jamm Require Consts CLayout.
 From Coq Require String.
 Import Coq.Strings.String.StringSyntax. Delimit Scope string_scope with string.
@@ -263,17 +269,25 @@ Theorem C01_engine_strict_invariant_kept : forall (st : Engine.db) (ops : list E
 Proof. exact EngineRefines.run_tx_strict. Qed.
 Print Assumptions C01_engine_strict_invariant_kept.
 
-(* ... the allocation invariant (free and pending ids disjoint from every reachable page run and from the free-list run) is
-   NOT yet proved to be re-established (C01_partial): it enters as the decidable hypothesis `checked st'` (EngineRefines.checkedb,
-   evaluated on every state of the model-side search), and with it any history of transactions from the empty database refines
-   the reference *)
-Theorem C01_partial_engine_history_refines : forall (P : N) (txs : list (list Engine.op * list Bytes.bytes)) (st' : Engine.db),
-  (0 < P)%N -> EngineRefines.txs_ok (Engine.init_db P) txs ->
-  EngineRefines.run_txs (Engine.init_db P) txs = Engine.Ok st' ->
-  EngineRefines.db_ok st' /\ EngineAbs.abs_db st' = EngineRefines.sem_txs txs (Spec.SBucket 0 0 nil).
-Proof. exact EngineRefines.run_txs_refines_init. Qed.
-Print Assumptions C01_partial_engine_history_refines.
+(* ==== ... and so is the allocation invariant (EngineAllocInv, on top of an ownership invariant carried through the operations,
+   rebalance and nested spill): the complete invariant db_okz = strict trees + free / pending ids disjoint from every reachable
+   page run (overflow pages included) and from the free-list run + no page run shared + page 0 unused. One transaction: ==== *)
+Theorem C01_engine_transaction_refines_and_keeps_invariant : forall (st : Engine.db) (ops : list Engine.op) (ord : list Bytes.bytes) (st' : Engine.db),
+  EngineOwnSpill.db_okz st -> Forall (EnginePathFacts.op_ok (Engine.d_disk st)) ops ->
+  Engine.run_tx st ops ord = Engine.Ok st' -> EngineRefines.readable st' ->
+  EngineOwnSpill.db_okz st' /\ EngineAbs.abs_db st' = EngineAbs.sem_tx ops (EngineAbs.abs_db st).
+Proof. exact EngineAllocInv.run_tx_refines'. Qed.
+Print Assumptions C01_engine_transaction_refines_and_keeps_invariant.
 
-Theorem C01_partial_target_statement_holds : EngineAbs.run_tx_refines_stmt EngineRefines.db_wf EnginePathFacts.op_ok.
-Proof. exact EngineRefines.run_tx_refines_stmt_holds. Qed.
-Print Assumptions C01_partial_target_statement_holds.
+(* ==== every history of transactions from the empty database, at every page size: the committed meaning is the reference's.
+   The only side conditions (txs_ok') are the model's fuels: op_ok of each operation and `readable` of each state. ==== *)
+Theorem C01_engine_history_refines_reference : forall (P : N) (txs : list (list Engine.op * list Bytes.bytes)) (st' : Engine.db),
+  (0 < P)%N -> EngineAllocInv.txs_ok' (Engine.init_db P) txs ->
+  EngineRefines.run_txs (Engine.init_db P) txs = Engine.Ok st' ->
+  EngineOwnSpill.db_okz st' /\ EngineAbs.abs_db st' = EngineRefines.sem_txs txs (Spec.SBucket 0 0 nil).
+Proof. exact EngineAllocInv.run_txs_refines_init'. Qed.
+Print Assumptions C01_engine_history_refines_reference.
+
+Theorem C01_target_statement_holds : EngineAbs.run_tx_refines_stmt EngineAllocInv.db_wf' EnginePathFacts.op_ok.
+Proof. exact EngineAllocInv.run_tx_refines_stmt_holds'. Qed.
+Print Assumptions C01_target_statement_holds.
